@@ -525,7 +525,7 @@ ROLE_FNS = {"chars": "score_chars_up", "words": "score_words_up", "tails": "scor
             "word_len": "score_word_len_down", "char_len": "score_char_len_down"}
 
 
-def priorities(ctx, rule_a, rule_e12=None):
+def priorities(ctx, rule_a, rule_e12=None, match_before_rating=True):
     r = score_table(ctx, rule_a)
     if r is None:
         return None
@@ -577,7 +577,7 @@ def priorities(ctx, rule_a, rule_e12=None):
                  {"witness": "identical titles with different ratings come out in buffer order"})
     else:
         ctx.ok(rule_a, "rating-component", by_fn[ROLE_FNS["rating"]][0][2], "the rating is score component %d" % rr)
-    for role in ("chars", "words", "tails", "trans", "offset"):
+    for role in (("chars", "words", "tails", "trans", "offset") if match_before_rating else ()):
         r0 = rank_of(role)
         key = "priority:%s<rating" % role
         if r0 is not None and rr is not None and r0 < rr:
@@ -599,7 +599,7 @@ def priorities(ctx, rule_a, rule_e12=None):
     return by_fn
 
 
-def directions(ctx, rule, comps):
+def directions(ctx, rule, comps, roles=None):
     """compare_hits is Desc; score functions are negated / un-negated as the statement requires"""
     sb = _search_body(ctx)
     for bid, (cb, r) in comps.items():
@@ -613,6 +613,8 @@ def directions(ctx, rule, comps):
     want_neg = {"chars": False, "words": False, "rating": False, "tails": True, "trans": True, "offset": True}
     facts = ctx.facts
     for role, neg in sorted(want_neg.items()):
+        if roles is not None and role not in roles:
+            continue
         fb = facts.one("search::score::" + ROLE_FNS[role])
         key = "sign:%s" % role
         if fb is None:
